@@ -384,7 +384,7 @@ def run_zone(case):
                     raise Violation("nsec", "more than one NSEC at a name", "nsec-multi")
                 rd = next(iter(rds))
                 nxt = W.read_name(rd, 0)
-                got_chain[ok] = (W.name_key(nxt.labels), D.bitmap_types(rd[nxt.end:]), tuple(nxt.labels))
+                got_chain[ok] = (W.name_key(nxt.labels), D.bitmap_types(rd[nxt.end:]), tuple(nxt.labels), bytes(rd[nxt.end:]))
     had_nsec_before = any((47, 0) in node for node in content.values())
     if not had_nsec_before:
         want_names = [k for k, _, _ in chain_ref]
@@ -397,7 +397,7 @@ def run_zone(case):
                 "nsec-owners:" + ("extra" if extra else "missing") + (":apex-only" if len(want_names) == 1 else ""),
             )
         for k, nxt, bitmap in chain_ref:
-            gn, gb, _ = got_chain[k]
+            gn, gb, _, gw = got_chain[k]
             if gn != nxt:
                 raise Violation("nsec", f"NSEC at {k!r} points to {gn!r}, canonical successor is {nxt!r}", "nsec-next")
             if gb != bitmap:
@@ -406,6 +406,10 @@ def run_zone(case):
                     f"NSEC bitmap at {k!r} is {sorted(gb)}, reference {sorted(bitmap)}",
                     "nsec-bitmap" + (":delegation" if (2, 0) in content[k] and k != apex else ""),
                 )
+            if gw != D.bitmap_wire(bitmap):
+                raise Violation("nsec", f"NSEC bitmap at {k!r} is encoded as {gw.hex()}, RFC 4034 4.1.2 encoding is {D.bitmap_wire(bitmap).hex()}", "nsec-bitmap-encoding")
+            if any(t >= 256 for t in bitmap):
+                classes.add("nsec-multi-window")
         if sorted(set(signed)) != sorted(signed_ref) or len(signed) != len(set(signed)):
             extra = sorted(set(signed) - signed_ref)
             missing = sorted(signed_ref - set(signed))
@@ -477,6 +481,6 @@ def parts(tier):
              shards={"quick": 2, "thorough": 8}),
         Part("zone", run_zone, strategy=zone_cases(), n={"quick": 2000, "thorough": 50000},
              require={"delegation": 200, "glue": 100, "empty-non-terminal": 100, "occluded-at-cut": 50, "wildcard": 100,
-                      "chain-checked": 500, "relativize": 200, "absolute": 200, "apex-only": 5},
+                      "chain-checked": 500, "nsec-multi-window": 100, "relativize": 200, "absolute": 200, "apex-only": 5},
              shards={"quick": 8, "thorough": 16}),
     ]
